@@ -101,6 +101,9 @@ var errExpr = map[string]string{
 	"operand-cmp":            `gstr < 1`,
 	"calltarget":             "gstr(1)",
 	"calltarget-nil":         "gnil(1)",
+	"calltarget-nil-noargs":  "gnil()",
+	"range-invalid":          "gnil",
+	"range-nilliteral":       "nil",
 	"argcount":               `lower("a", "b")`,
 	"argcount-jetfunc":       `len("a", "b")`,
 	"argtype":                `repeat("a", "b")`,
